@@ -271,9 +271,8 @@ func (e *Encoder) constVal(k *ssa.Const) Val {
 func (e *Encoder) zero(t types.Type) Val {
 	c := e.c
 	if _, ok := t.(*types.TypeParam); ok {
-		n := "zero_" + c.sortOf(t)
-		c.declare(n, c.sortOf(t))
-		return Val{T: t, S: n}
+		// the zero value of an opaque type parameter: one fixed element of its sort
+		return Val{T: t, S: fmt.Sprintf("(mk_%s 0)", c.sortOf(t))}
 	}
 	switch u := t.Underlying().(type) {
 	case *types.Basic:
@@ -285,7 +284,6 @@ func (e *Encoder) zero(t types.Type) Val {
 		case isString(u):
 			return Val{T: t, S: c.strConst("")}
 		case isFloat(u):
-			c.declare("fzero", "F64")
 			return Val{T: t, S: "fzero"}
 		case u.Kind() == types.UnsafePointer || u.Kind() == types.UntypedNil:
 			return Val{T: t, S: "lnil"}
